@@ -42,6 +42,7 @@ def run(ctx) -> None:
     for short in list(SPEC) + ["WellRandomizer.randomize_wells", "WellRandomizer.derandomize_wells"]:
         ctx.guard("C15.shape", shape_rule, short)
     ctx.guard("C15.random", randomizer)
+    ctx.guard("C15.instance-state", instance_state)
 
 
 def _index_map(ctx, short: str):
@@ -290,23 +291,31 @@ def randomizer(ctx) -> None:
     ok_p = bool(perms) and all(isinstance(cs.call.func, ast.Attribute) and attr_of_name(cs.call.func.value, selfn, "rng") and call_fname(cs.call) == "permutation" for cs in perms)
     ctx.rep.check(ok_p, rule, f"{f.qualname}/permutation", f"{len(perms)} permutations, all drawn from self.rng.permutation", "a permutation is not drawn from self.rng.permutation", where=f.where())
     # per mode: keys and permuted values are the same slice
+    covered = set()
     for cs in perms:
-        mode = None
-        for r, pol, raw in fv.rfacts_at(cs.node):
-            if isinstance(r, ast.Compare) and isinstance(r.ops[0], ast.Eq) and pol and is_name(r.left, "mode") and isinstance(r.comparators[0], ast.Constant):
-                mode = r.comparators[0].value
+        modes = _modes_of(fv, cs.node)
+        mode = next(iter(modes)) if modes is not None and len(modes) == 1 else None
         arg = fv.res.resolve(cs.call.args[0], cs.node) if cs.call.args else None
         if arg is not None and isinstance(arg, ast.Attribute) and is_name(arg.value, selfn):
             st = [n for n in fv.cfg.nodes if n.kind == "stmt" and isinstance(n.ast, ast.Assign) and attr_of_name(n.ast.targets[0], selfn, arg.attr) and fv.cfg.dominates(n.id, cs.node)]
             if len(st) == 1:
                 arg = fv.res.resolve(st[0].ast.value, st[0].id)
-        c = f"{f.qualname}/mode[{mode}]"
+        c = f"{f.qualname}/mode[{mode if mode else '|'.join(sorted(modes)) if modes else '?'}]"
         w = f.where(cs.call)
+        if modes is None:
+            ctx.rep.inconclusive(rule, c, "cannot tell for which mode this permutation is drawn", where=w)
+            continue
+        covered |= set(modes)
         if mode == "full":
             ok = arg is not None and isinstance(arg, ast.Call) and call_fname(arg) in ("flatten", "ravel") and call_fname(strip_norm(arg)) == "make_well_array"
             ctx.rep.check(ok, rule, c, "full mode permutes all wells of the plate", f"full mode permutes `{show(arg)[:50] if arg is not None else None}`", where=w)
-        elif mode in ("row", "column"):
-            ok = isinstance(arg, ast.Subscript) and isinstance(arg.slice, ast.Tuple) and len(arg.slice.elts) == 2
+            continue
+        if not set(modes) <= {"row", "column"}:
+            ctx.rep.inconclusive(rule, c, f"one permutation site serves the modes {sorted(modes)}", where=w)
+            continue
+        sliced = isinstance(arg, ast.Subscript) and isinstance(arg.slice, ast.Tuple) and len(arg.slice.elts) == 2
+        if mode is not None and (sliced or not is_sym(arg, "elem")):
+            ok = sliced
             if ok:
                 a0, a1 = arg.slice.elts
                 fixed, free = (a0, a1) if mode == "row" else (a1, a0)
@@ -317,14 +326,41 @@ def randomizer(ctx) -> None:
                     ok = isinstance(rng_it, ast.Call) and call_fname(rng_it) == "range" and len(rng_it.args) == 1 and isinstance(rng_it.args[0], ast.Subscript) and isinstance(rng_it.args[0].slice, ast.Constant) and rng_it.args[0].slice.value == axis
             ctx.rep.check(ok, rule, c, f"{mode} mode permutes each {mode} within itself, for every {mode}",
                           f"{mode} mode permutes `{show(arg)[:60] if arg is not None else None}`: not one whole {mode} per iteration over all {mode}s - wells can leave their {mode}", where=w)
-            # keys zipped with the permuted values are the same slice
-            loops = [h for h in fv.cfg.nodes if h.kind == "for" and isinstance(h.ast.iter, ast.Call) and call_fname(h.ast.iter) == "zip" and mode == _mode_of(fv, h.id)]
-            okz = False
-            for h in loops:
-                z = fv.res.resolve(h.ast.iter, h.id)
-                if len(z.args) == 2 and key(z.args[0]) == key(arg) and isinstance(z.args[1], ast.Call) and call_fname(z.args[1]) == "permutation":
-                    okz = True
-            ctx.rep.check(okz, rule, c + "/lookup", "lookup maps the slice onto its own permutation", "the lookup of this mode does not map each slice onto the permutation of the same slice", where=w)
+        else:
+            # the permuted lane is the element of a loop over a list of lanes: classify every alternative of that list
+            loops = [h for h in fv.cfg.enclosing_loops(cs.node) if fv.cfg.nodes[h].kind == "for"]
+            if not (is_sym(arg, "elem") and loops):
+                ctx.rep.inconclusive(rule, c, f"cannot relate the permuted `{show(arg)[:60] if arg is not None else None}` to the rows/columns of the plate", where=w)
+                continue
+            h = loops[-1]
+            for conds, val in fv.alternatives(fv.cfg.nodes[h].ast.iter, h):
+                ms = set(modes)
+                for r, pol in conds:
+                    if isinstance(r, ast.Compare) and len(r.ops) == 1 and isinstance(r.ops[0], ast.Eq) and is_name(r.left, "mode") and isinstance(r.comparators[0], ast.Constant):
+                        ms = ms & {r.comparators[0].value} if pol else ms - {r.comparators[0].value}
+                kind = _lane_class(val)
+                ctext = " and ".join(("" if p_ else "not ") + show(r_)[:40] for r_, p_ in conds) or "always"
+                for m in sorted(ms):
+                    want = "rows" if m == "row" else "columns"
+                    cc = f"{c}/{m}/lanes[{ctext[:50]}]"
+                    if kind == want:
+                        ctx.rep.holds(rule, cc, f"{m} mode: the lanes are the {want} of the plate", where=w)
+                    elif kind in ("rows", "columns", "whole"):
+                        what = "the whole plate as one lane" if kind == "whole" else f"the {kind} of the plate"
+                        ctx.rep.refuted(rule, cc, f"in {m} mode (when {ctext}) the wells permuted among each other are {what}, not each {m} on its own: wells can leave their {m}", where=w)
+                    else:
+                        ctx.rep.inconclusive(rule, cc, f"cannot classify the lanes `{show(val)[:60]}`", where=w)
+        # keys zipped with the permuted values are the same slice
+        zl = [h for h in fv.cfg.nodes if h.kind == "for" and isinstance(h.ast.iter, ast.Call) and call_fname(h.ast.iter) == "zip" and _modes_of(fv, h.id) == modes]
+        okz = False
+        for h in zl:
+            z = fv.res.resolve(h.ast.iter, h.id)
+            if len(z.args) == 2 and key(z.args[0]) == key(arg) and isinstance(z.args[1], ast.Call) and call_fname(z.args[1]) == "permutation":
+                okz = True
+        ctx.rep.check(okz, rule, c + "/lookup", "lookup maps the slice onto its own permutation", "the lookup of this mode does not map each slice onto the permutation of the same slice", where=w)
+    missing = {"full", "row", "column"} - covered
+    if missing:
+        ctx.rep.inconclusive(rule, f"{f.qualname}/modes", f"no permutation site found for mode(s) {sorted(missing)}", where=f.where())
     # unknown mode raises
     rej = any(raise_class(fv, s)[0] == "ValueError" for s in own_walk(f.node) if isinstance(s, ast.Raise))
     ctx.rep.check(rej, rule, f"{f.qualname}/mode-else", "an unsupported mode raises ValueError", "an unsupported mode is not rejected", where=f.where())
@@ -344,6 +380,84 @@ def randomizer(ctx) -> None:
         uses = [s for s in own_walk(g.node) if isinstance(s, ast.Attribute) and s.attr in ("lookup", "lookup_reverse")]
         ctx.rep.touch(g)
         ctx.rep.check(bool(uses) and all(u.attr == table for u in uses), rule, f"{g.qualname}/table", f"uses self.{table}", f"{short.split('.')[1]} does not (only) use self.{table}: randomize/derandomize are not inverse to each other", where=g.where())
+
+
+def instance_state(ctx) -> None:
+    """A transform object's answers depend on its own shape/seed only: no mutable container declared on the class
+    (shared by all instances) is filled by its methods."""
+    rule = "C15.instance-state"
+    MUT = {"append", "extend", "insert", "pop", "clear", "update", "setdefault", "__setitem__", "add"}
+    n = 0
+    for cname in ("WellShifter", "WellRotator", "WellRandomizer"):
+        cls = ctx.prog.require_class(cname, rule)
+        n += 1
+        shared = {}
+        for k, v in cls.class_assigns.items():
+            if isinstance(v, (ast.Dict, ast.List, ast.Set, ast.DictComp, ast.ListComp, ast.SetComp)) or (isinstance(v, ast.Call) and call_fname(v) in ("dict", "list", "set", "defaultdict", "OrderedDict")):
+                shared[k] = v
+        hits = []
+        for m in cls.methods.values():
+            ctx.rep.touch(m)
+            selfn = m.params[0] if m.params else None
+            for sub in own_walk(m.node):
+                root = None
+                if isinstance(sub, ast.Subscript) and isinstance(sub.ctx, (ast.Store, ast.Del)):
+                    root = sub.value
+                elif isinstance(sub, ast.Call) and isinstance(sub.func, ast.Attribute) and sub.func.attr in MUT:
+                    root = sub.func.value
+                while isinstance(root, ast.Subscript):
+                    root = root.value
+                if isinstance(root, ast.Attribute) and root.attr in shared and (is_name(root.value, selfn) or is_name(root.value, cname) or is_name(root.value, "cls")
+                                                                             or (isinstance(root.value, ast.Call) and call_fname(root.value) == "type")):
+                    # an instance attribute of the same name assigned in __init__ shadows the class attribute
+                    init = cls.methods.get("__init__")
+                    shadow = init is not None and any(isinstance(x, ast.Attribute) and x.attr == root.attr and isinstance(x.ctx, ast.Store) and is_name(x.value, init.params[0]) for x in own_walk(init.node))
+                    if not shadow:
+                        hits.append((m, sub, root.attr))
+        for m, sub, attr in hits:
+            ctx.rep.refuted(rule, f"{m.qualname}/{attr}", f"`{cname}.{attr}` is a container declared on the class and filled by {m.name}: it is shared by all {cname} objects, so the result "
+                            "computed for one plate shape / seed is returned for another", where=m.where(sub))
+        if not hits:
+            ctx.rep.holds(rule, cname, f"no class-level container is mutated by the methods of {cname} ({len(shared)} class-level containers)")
+    ctx.rep.floor(rule, "transform classes", n, 3)
+
+
+def _modes_of(fv, node: int):
+    """Modes for which `node` runs, from the must-hold atoms `mode == c` / `mode in (c, ...)`; None if unknown."""
+    out = None
+    for r, pol, br in fv.atoms_at(node):
+        if not (isinstance(r, ast.Compare) and len(r.ops) == 1 and is_name(r.left, "mode") and pol):
+            continue
+        if isinstance(r.ops[0], ast.Eq) and isinstance(r.comparators[0], ast.Constant):
+            cur = {r.comparators[0].value}
+        elif isinstance(r.ops[0], ast.In) and isinstance(r.comparators[0], (ast.Tuple, ast.List, ast.Set)) and all(isinstance(e, ast.Constant) for e in r.comparators[0].elts):
+            cur = {e.value for e in r.comparators[0].elts}
+        else:
+            continue
+        out = cur if out is None else out & cur
+    return frozenset(out) if out is not None else None
+
+
+def _lane_class(val: ast.AST):
+    """rows / columns / whole: what a list of lanes of the well grid consists of (None: unknown)."""
+    v = val
+    while isinstance(v, ast.Call) and call_fname(v) in ("list", "tuple", "iter") and len(v.args) == 1:
+        v = v.args[0]
+
+    def is_grid(x):
+        return isinstance(x, ast.Call) and call_fname(x) == "make_well_array"
+
+    if is_grid(v):
+        return "rows"
+    if isinstance(v, ast.Attribute) and v.attr == "T" and is_grid(v.value):
+        return "columns"
+    if isinstance(v, ast.Call) and call_fname(v) == "transpose" and ((isinstance(v.func, ast.Attribute) and is_grid(v.func.value) and not v.args) or (v.args and is_grid(v.args[0]) and len(v.args) == 1)):
+        return "columns"
+    if isinstance(v, (ast.List, ast.Tuple)) and len(v.elts) == 1:
+        e = v.elts[0]
+        if isinstance(e, ast.Call) and call_fname(e) in ("flatten", "ravel", "reshape") and isinstance(e.func, ast.Attribute) and (is_grid(e.func.value) or (isinstance(e.func.value, ast.Attribute) and is_grid(e.func.value.value))):
+            return "whole"
+    return None
 
 
 def _mode_of(fv, node: int):
